@@ -46,6 +46,10 @@ CHECKS = {
             "For every pair of cursors of either alignment (in range, out of range, inverted, zero-width) on texts of length 0..3 (0..5 thorough), and every parent selection: the three constructors accept an offset exactly when it denotes 0 <= begin <= end <= length of the addressed text (resource or parent annotation) and then resolve to exactly those positions; every offset reported by Selector::offset_with_mode and TextSelection::relative_offset in each of the four modes has non-positive end-aligned cursors and re-resolves (through the library's own extracted resolver) to the same range; the cursor-kind to OffsetMode map is the identity. Structurally: TextSelection values are built only inside the four reviewed functions and everything AnnotationStore::selector stores comes from a validating constructor.",
             "trusted: syn, the evaluator vocabulary (anything else is reported as not discharged), the model of an empty position index, the piecewise-linear small-model argument; that the selected text equals those codepoints is C12's share",
             "DESIGN.md section 4 C04, A7", "syn+mir"),
+    "C12": ("other", "abstract interpretation of units (codepoint vs byte) and coordinate spaces over MIR; guard-shape rule on the conversion functions (syn); dominance of the interval guard; who-may-read rule for the knob; consumer/filter rule for the position index",
+            "Decides, for every text and every setting, the structural necessary conditions: in the 796 functions of the text modules no codepoint position is ever added to, compared with, passed as or stored as a byte position (unit inference seeded from the conversion functions, std string functions and declared field units; 957 values typed) and no two absolute positions are added; the two conversion functions answer Ok only under an exact match of the cursor and otherwise fall to Err, with no reachable panic; create_milestones runs only under interval > 0; milestone_interval is read only where milestones are placed; every exposure of the position index filters milestone-only entries (three raw low-level accessors are known findings). Numeric exactness of the counting loops is not decided.",
+            "trusts rustc MIR, the unit seed tables in lib/units.py (each field unit is also checked at its initialisation sites), rules/units_ok.json (6 error-payload lines), syn",
+            "DESIGN.md section 4 C12, A6", "mir+syn"),
 }
 
 NA = {
